@@ -155,6 +155,8 @@ def join_queries() -> List[dict]:
                 v3 = VARS[c2][1]
                 ej3 = ["cmp", "==", ["attr", sel, ["child" if r1 == "parent" else "parent"]], ["attr", v3, [r2]]]
                 out.append({"the": False, "sel": sel, "vars": {sel: sel_c, v2: c2, v3: c2}, "cond": ["and", ej, ej3]})      # two variables of one type
+                out.append({"the": False, "unnamed": True, "sel": sel, "vars": {sel: sel_c, v2: c2, v3: c2}, "cond": ["and", ej, ej3]})
+                out.append({"the": False, "unnamed": True, "sel": sel, "vars": {sel: sel_c, v2: c2}, "cond": ej})
                 out.append({"the": False, "sel": sel, "vars": {sel: sel_c, v2: c2},
                             "cond": ["cmp", "==", ["attr", sel, [r1, "world"]], ["attr", v2, ["world"]]]})                 # a join equality over two hops
                 for c in (["and", ej, ej2], ["or", ej, ej2], ["or", ej, plain], ["or", plain, ej], ["and", plain, ["or", ej, ej2]],
@@ -342,7 +344,8 @@ def query_term(q: dict) -> str:
 def build_query(q: dict, lw: LiveWorld):
     from krrood.entity_query_language.entity import let, entity, and_, or_, not_, in_
     from krrood.entity_query_language.quantify_entity import an, the
-    vs = {v: let(_NS[c], lw.domain(c), name=v) for v, c in q["vars"].items()}
+    # "unnamed": the variables are made without name= (they all carry the default name)
+    vs = {v: (let(_NS[c], lw.domain(c)) if q.get("unnamed") else let(_NS[c], lw.domain(c), name=v)) for v, c in q["vars"].items()}
 
     def ex(x):
         k = x[0]
